@@ -15,14 +15,14 @@ Theorem reply_owned_proof : forall lookup d,
     (forall lk now m, In m (snd (fire_timers lk now d)) -> owned_reply d (fst (fire_timers lk now d)) m) /\
     (forall lk sid m, In m (snd (fst (dealer_remove_session lk d sid))) ->
         owned_reply d (fst (fst (dealer_remove_session lk d sid))) m) /\
-    (* YIELD: a final RESULT consumes the call (also while the caller is still sending chunks) *)
-    (forall callee req opts args kw m, In m (snd (sync_yield d callee req opts args kw)) ->
+    (* YIELD: the final reply (RESULT, or ERROR(CALL) for an undeliverable passthru result) consumes the call *)
+    (forall lk callee req opts args kw m, In m (snd (sync_yield lk d callee req opts args kw)) ->
         forall cid fin, reply_of m = Some (cid, fin) ->
           cget (d_calls d) cid = Some (fst cid) /\
           exists inv, cget (d_invs d) (callee, req) = Some inv /\ inv_call inv = cid /\
                       fin = negb (opt_bool opts "progress") /\
                       (fin = true ->
-                       cget (d_calls (fst (sync_yield d callee req opts args kw))) cid = None)) /\
+                       cget (d_calls (fst (sync_yield lk d callee req opts args kw))) cid = None)) /\
     (* CALL: only refusals of the CALL being processed; every refusal leaves that call unrecorded
        (a refused further chunk ends the pending call; a refused first chunk changes no call table) *)
     (forall cfg now caller req opts proc args kw oracle m,
